@@ -15,7 +15,9 @@ EXPLANATION = (
     'NOT decided; (R6) no division by a possibly-zero value in the search call graph; (R7) imports the legality-filter rules C01.R1/R2 '
     "(the candidates searched are legal). R3 also imports C04.R4's who-may-call rule for the raw board mutators over the search call "
     'graph; R7 now imports ALL clauses of C01 (generation, castling guards, pawn geometry, promotions), since the move returned is one '
-    'of the generated moves. R6 ignores the divisor assertion rustc emits for a non-zero literal divisor.'
+    'of the generated moves. R6 ignores the divisor assertion rustc emits for a non-zero literal divisor. R1 also demands that no '
+    'candidate is removed from the root list before its emptiness test (retain / remove / truncate ...); path-limit fallback with '
+    'opaque move application. The parallel task body is the closure handed to the rayon adapter.'
 )
 ASSUMPTIONS = [
     "rayon's par_iter().map().collect() yields one scored entry per candidate (so a non-empty candidate list gives a non-empty vector)",
